@@ -284,7 +284,27 @@ def shrink_and_confirm(binary, prop, seed, tier, res):
         p = subprocess.run([binary, "-replay", path], stdout=subprocess.PIPE, stderr=subprocess.PIPE, env=env, timeout=1800)
         etxt = p.stderr.decode(errors="replace")
         ok = p.returncode == 66 or "WARNING: DATA RACE" in etxt
-        return path, ok, dict(res), "" if ok else "the race report did not recur when the case was replayed alone"
+        final = dict(res)
+        if not ok and res.get("context"):
+            # state shared between cases of one process (package-level pools, caches) is part of the
+            # history: replay the case after the same preceding cases
+            for attempt in range(RACE_RETRIES):
+                # runtime-managed shared state (sync.Pool, which drops a random quarter of the Puts in
+                # race builds, and GC timing) is not under the simulator's control: the history replay
+                # is tried several times before giving up
+                ok = context_replay(binary, prop, seed, tier, res, env, "data-race")
+                if ok:
+                    break
+            if not ok:
+                # keep the report itself: it names both accesses and is not produced without a race
+                try:
+                    with open(path + ".race.txt", "w") as f:
+                        f.write(res.get("stderr", ""))
+                except Exception:
+                    pass
+            if ok:
+                final["detail"] = (final.get("detail") or "") + " [recurs only after the cases that preceded it in its worker process: state shared between streams of one process]"
+        return path, ok, final, "" if ok else "the race report did not recur when the case was replayed alone nor after the same preceding cases"
     p = subprocess.run([binary, "-shrink", path] + cpu, stdout=subprocess.PIPE, stderr=subprocess.PIPE, env=env, timeout=1800)
     if p.returncode == 3:
         return path, False, None, "the recorded tape does not reproduce the failure (shrink step)"
@@ -306,6 +326,9 @@ def shrink_and_confirm(binary, prop, seed, tier, res):
         return path, False, None, "replay produced no result: " + p.stderr.decode(errors="replace")[-1500:]
     ok = final.get("v") == "fail" and final.get("class") == rf["class"]
     return path, ok, final, "" if ok else "replay of the minimised tape gave %s/%s instead of fail/%s" % (final.get("v"), final.get("class"), rf["class"])
+
+
+RACE_RETRIES = 8
 
 
 def context_replay(binary, prop, seed, tier, res, env, cls):
@@ -335,6 +358,8 @@ def context_replay(binary, prop, seed, tier, res, env, cls):
     etxt = p.stderr.decode(errors="replace")
     if cls == "hang":
         return p.returncode == 3 and '"hang"' in etxt
+    if cls == "data-race":
+        return p.returncode == 66 or "WARNING: DATA RACE" in etxt
     return p.returncode not in (0, 1, 3)
 
 
@@ -554,7 +579,7 @@ ASSUMPTIONS = {
 }
 EXPECTED_PROBES = {
     "C01": ["blocks", "tiny.input", "chain.gt4", "headerless"],
-    "C02": ["damage.reported", "damage.harmless", "bytes.after.error", "parser.agrees"],
+    "C02": ["damage.reported", "damage.harmless", "parser.agrees"],
     "C03": ["rejected.with.error", "decoded.to.eof", "big.bwt.blocks"],
     "C10": ["corpus.entries", "differential.pairs"],
     "C18": ["instances"],
@@ -598,8 +623,11 @@ def replay(path):
         again = p.returncode == 66 or "WARNING: DATA RACE" in etxt
     elif cls == "process-died":
         again = p.returncode not in (0, 1, 3)
-    if again is False and rf.get("context") and cls in ("hang", "process-died"):
-        again = context_replay(binary, prop, rf["seed"], rf["tier"], {"i": rf["case"], "context": rf["context"]}, env, cls)
+    if again is False and rf.get("context") and cls in ("hang", "process-died", "data-race"):
+        for attempt in range(RACE_RETRIES if cls == "data-race" else 1):
+            again = context_replay(binary, prop, rf["seed"], rf["tier"], {"i": rf["case"], "context": rf["context"]}, env, cls)
+            if again:
+                break
     if again is not None:
         print(json.dumps({"prop": prop, "class": cls, "exit_status": p.returncode, "recurs": again, "stderr_head": summarize_death(etxt, p.returncode)}, indent=1))
         if again:
